@@ -122,6 +122,15 @@ CLAIMED = {
              "every table; numerical precision, CSV formatting and the rotation-vector branch cut are not decided.",
         technique="reader/writer table-agreement rule on ast (claimed for layout only)",
         ref="5 C13"),
+    "C14": dict(
+        text="The placement arithmetic of the simulator is evaluated to affine forms for both parity classes of the template size (n=2k, n=2k+1): "
+             "start + output_center must equal pos/scale identically (3-D worker and projection worker), the output region must have the template's "
+             "size, positions must be converted to pixels; structural rules prove the matrix is T(c) R^-1 T(-oc) with the inverse molecule rotation, "
+             "that the triples from _prep_iterators are zipped unmodified (one task per molecule of every component), that all five result loops "
+             "accumulate with += into a zero buffer (additivity, order independence) and that clipping uses the pads of make_slice_and_pad. "
+             "Interpolation accuracy is not decided.",
+        technique="parity-split affine-form evaluation (abstract interpretation), unit typing, order/accumulation structural rules on ast",
+        ref="5 C14"),
 }
 
 NOT_APPLICABLE = {
